@@ -180,16 +180,21 @@ def gen_expansion(draw):
     uses_c = draw(st.integers(0, 3)); uses_a = draw(st.integers(0, 2))
     if uses_c + uses_a == 0: uses_c = 1
     delta = draw(st.sampled_from([-1, 0, 1, -1, 0, 1, 'zero', 'large', 'none']))
-    return {'lane': 'expansion', 'kind': 'dag', 'fan': fan, 'uses_c': uses_c, 'uses_a': uses_a, 'delta': delta, 'api': draw(st.sampled_from(['sax2', 'dom', 'sax1', 'domls'])), 'scanner': draw(st.sampled_from(['IG', 'DG']))}
+    # external parsed entities count like internal ones: mix references to a tiny external entity into the levels (content only)
+    ext = draw(st.sampled_from([0, 0, 1, 2, 3]))
+    if ext: uses_a = 0; uses_c = max(1, uses_c)
+    return {'lane': 'expansion', 'kind': 'dag', 'fan': fan, 'uses_c': uses_c, 'uses_a': uses_a, 'delta': delta, 'ext': ext, 'api': draw(st.sampled_from(['sax2', 'dom', 'sax1', 'domls'])), 'scanner': draw(st.sampled_from(['IG', 'DG']))}
 
 def expansion_doc(case):
     if case['kind'] == 'cycle':
         n = case['n']; decls = ''.join('<!ENTITY c%d "x&c%d;y">' % (i, (i + 1) % n) for i in range(n))
         body = '<r>&c0;</r>' if case['where'] == 'content' else '<r a="&c0;"/>'
         return '<!DOCTYPE r [%s]>%s' % (decls, body), None
-    fan = case['fan']; decls = '<!ENTITY e0 "x">'; cost = [1]
+    fan = case['fan']; decls = '<!ENTITY e0 "x">'; cost = [1]; ext = case.get('ext', 0)
+    if ext: decls += '<!ENTITY xx SYSTEM "xx.ent">'
     for i, f in enumerate(fan):
-        decls += '<!ENTITY e%d "%s">' % (i + 1, '&e%d;' % i * f); cost.append(1 + f * cost[i])
+        xr = '&xx;' if (ext and (i % ext) == 0) else ''
+        decls += '<!ENTITY e%d "%s%s">' % (i + 1, xr, '&e%d;' % i * f); cost.append(1 + (1 if xr else 0) + f * cost[i])
     top = len(fan)
     E = (case['uses_c'] + case['uses_a']) * cost[top]
     body = '<r%s>%s</r>' % (''.join(' a%d="&e%d;"' % (i, top) for i in range(case['uses_a'])), '&e%d;' % top * case['uses_c'])
@@ -199,7 +204,7 @@ def run_expansion(case, ex):
     doc, E = expansion_doc(case)
     def parse(limit):
         feat = 'ns=1;val=0;scanner=%s' % case['scanner'] + (';secmgr=%d' % limit if limit >= 0 else '')
-        return ex.request({'kind': 'parse', 'api': case['api'], 'feat': feat, 'doc': doc.encode()}, timeout=120)
+        return ex.request({'kind': 'parse', 'api': case['api'], 'feat': feat, 'doc': doc.encode(), 'ent:xx.ent': b'y'}, timeout=120)
     try:
         if case['kind'] == 'cycle':
             resp = parse(case['limit'])
@@ -212,7 +217,7 @@ def run_expansion(case, ex):
         if L is None: L = max(0, E + d)
         resp = parse(L)
         errs = [l.split('\t') for l in resp.split('\n') if l.startswith(('ERR', 'EXC'))]
-        labels = ['dag', 'E-L:%s' % (d if isinstance(d, str) else (E - L))]
+        labels = ['dag', 'E-L:%s' % (d if isinstance(d, str) else (E - L))] + (['dag-with-external-entity'] if case.get('ext') else [])
         if L < 0 or E <= L:
             if errs: return False, 'E=%d <= limit %d but errors reported: %r' % (E, L, errs[:3]), labels
             ref = parse(-1)
